@@ -356,6 +356,10 @@ func Run(opts *Options) (int, error) {
 					if nextCommand != nil {
 						removeFiles(nextCommand.tempFiles)
 					}
+					// A reload request that we have not handled yet
+					if request, ok := (*events)[EvtSearchNew].(searchRequest); ok && request.command != nil {
+						removeFiles(request.command.tempFiles)
+					}
 					quitSignal := value.(quitSignal)
 					exitCode = quitSignal.code
 					err = quitSignal.err
